@@ -224,6 +224,12 @@ pub fn make_drop_legal(db: &Db) -> parity_db::Result<()> {
 /// Drive everything to the tables: process all commits and reindex batches, flush, enact,
 /// clean. Bounded; returns the number of rounds used.
 pub fn drain(db: &Db) -> parity_db::Result<usize> {
+	drain_opt(db, true)
+}
+
+/// `process_queue = false`: the caller logs the commit queue itself (and keeps track of
+/// postponed transactions); only reindex / flush / enact / clean are driven here.
+pub fn drain_opt(db: &Db, process_queue: bool) -> parity_db::Result<usize> {
 	let mut rounds = 0;
 	loop {
 		rounds += 1;
@@ -231,6 +237,10 @@ pub fn drain(db: &Db) -> parity_db::Result<usize> {
 		loop {
 			let before = db.verif_status();
 			if before.queued_commits == 0 {
+				break
+			}
+			if !process_queue {
+				stuck = true;
 				break
 			}
 			db.process_commits()?;
@@ -302,4 +312,26 @@ pub fn dir_hashes(dir: &Path) -> Vec<(String, u64, u64)> {
 		let h = file_hash(&dir.join(&n));
 		(n, l, h)
 	}).collect()
+}
+
+/// Owner of a `Db` that is only dropped through `close()`. If a history fails (oracle violation
+/// or panic) the handle is leaked instead: dropping a Db whose pipeline is in an arbitrary state
+/// could block forever (see rule L2) and would turn a finding into a hang.
+pub struct Handle(std::mem::ManuallyDrop<Db>);
+
+impl Handle {
+	pub fn new(db: Db) -> Handle {
+		Handle(std::mem::ManuallyDrop::new(db))
+	}
+	pub fn close(mut self) {
+		unsafe { std::mem::ManuallyDrop::drop(&mut self.0) };
+		std::mem::forget(self);
+	}
+}
+
+impl std::ops::Deref for Handle {
+	type Target = Db;
+	fn deref(&self) -> &Db {
+		&self.0
+	}
 }
